@@ -22,6 +22,10 @@ pub struct Vertex {
     pub dual: [usize; 3],
     /// The safety radius of this vertex.
     pub(super) radius2: f64,
+    /// Amplification factor (>= 1) of the rounding error on the location of this vertex:
+    /// the inverse of the determinant of the (unit) normals of its three planes. The location
+    /// of a vertex on nearly parallel planes is ill-conditioned.
+    pub(super) error_factor: f64,
 }
 
 impl Vertex {
@@ -40,10 +44,17 @@ impl Vertex {
             Dimensionality::TwoD => DVec3::new(loc.x, loc.y, 0.),
             Dimensionality::ThreeD => loc,
         };
+        let det = glam::DMat3::from_cols(
+            half_spaces[i].plane.n,
+            half_spaces[j].plane.n,
+            half_spaces[k].plane.n,
+        )
+        .determinant();
         Vertex {
             loc,
             dual: [i, j, k],
             radius2: gen_loc.distance_squared(d_loc),
+            error_factor: (1. / det.abs()).max(1.),
         }
     }
 
@@ -370,7 +381,8 @@ impl ConvexCell<WithoutFaces> {
         let mut num_v = self.vertices.len();
         let mut num_r = 0;
         while i < num_v {
-            let mut clip = p.clip(self.vertices[i].loc);
+            let mut clip =
+                p.clip_with_error_factor(self.vertices[i].loc, self.vertices[i].error_factor);
             if clip == 0. {
                 // Do the equivalent in-sphere test to determine whether a vertex is clipped
                 let dual = self.vertices[i].dual;
